@@ -54,13 +54,32 @@ type expOrigin struct {
 	rng   hcl.Range
 	where string // enclosing expression kind | constraint kind
 	self  bool
+	// optional: lies in a declared don't-care zone of the constraint branch that
+	// expects it (completeness is not required, an origin there is fine)
+	optional bool
 }
 
 type origModel struct {
-	funcs    map[string]schema.FunctionSignature
-	expected []expOrigin
-	dontcare []hcl.Range // completeness don't-care: anything may or may not be collected here
-	forbid   []hcl.Range // literal-only / unknown places: nothing may be collected here
+	funcs     map[string]schema.FunctionSignature
+	expected  []expOrigin
+	dontcare  []hcl.Range // completeness don't-care: anything may or may not be collected here
+	forbid    []hcl.Range // literal-only / unknown places: nothing may be collected here
+	finalized bool
+}
+
+// finalize marks the expectations that lie in a don't-care zone as optional.
+func (m *origModel) finalize() {
+	if m.finalized {
+		return
+	}
+	for i := range m.expected {
+		for _, z := range m.dontcare {
+			if rangeWithin(m.expected[i].rng, z) {
+				m.expected[i].optional = true
+			}
+		}
+	}
+	m.finalized = true
 }
 
 func travAddr(t hcl.Traversal) (string, bool) {
@@ -131,8 +150,19 @@ func (m *origModel) anyExpr(e hclsyntax.Expression, want cty.Type, consKind stri
 			m.dontcare = append(m.dontcare, t.Range())
 			return
 		}
-		for _, el := range t.Exprs {
-			m.anyExpr(el, cty.DynamicPseudoType, consKind+">tuple", depth+1)
+		for i, el := range t.Exprs {
+			et := cty.DynamicPseudoType
+			switch {
+			case want.IsListType() || want.IsSetType():
+				et = want.ElementType()
+			case want.IsTupleType():
+				if i >= len(want.TupleElementTypes()) {
+					m.dontcare = append(m.dontcare, el.Range()) // surplus element: ill-typed
+					continue
+				}
+				et = want.TupleElementType(i)
+			}
+			m.anyExpr(el, et, consKind+">tuple", depth+1)
 		}
 	case *hclsyntax.ObjectConsExpr:
 		if want != cty.DynamicPseudoType && !(want.IsMapType() || want.IsObjectType()) {
@@ -141,7 +171,19 @@ func (m *origModel) anyExpr(e hclsyntax.Expression, want cty.Type, consKind stri
 		}
 		for _, it := range t.Items {
 			m.dontcare = append(m.dontcare, it.KeyExpr.Range())
-			m.anyExpr(it.ValueExpr, cty.DynamicPseudoType, consKind+">object", depth+1)
+			vt := cty.DynamicPseudoType
+			switch {
+			case want.IsMapType():
+				vt = want.ElementType()
+			case want.IsObjectType():
+				key, _ := it.KeyExpr.Value(nil)
+				if key.IsNull() || !key.IsWhollyKnown() || key.Type() != cty.String || !want.HasAttribute(key.AsString()) {
+					m.dontcare = append(m.dontcare, it.ValueExpr.Range()) // not an attribute of the expected object type
+					continue
+				}
+				vt = want.AttributeType(key.AsString())
+			}
+			m.anyExpr(it.ValueExpr, vt, consKind+">object", depth+1)
 		}
 	case *hclsyntax.ForExpr:
 		// the collection is a written reference; bodies use iterator variables (don't-care)
@@ -235,32 +277,33 @@ func (m *origModel) admit(e hclsyntax.Expression, c schema.Constraint, depth int
 			m.admit(it.ValueExpr, as.Constraint, depth+1)
 		}
 	case schema.OneOf:
-		// admitted by any alternative: evaluate each alternative separately and union
-		var exp []expOrigin
-		var forbidAll []hcl.Range
-		first := true
+		// admitted by any alternative: every alternative is evaluated on its own
+		// (its don't-care zones only weaken ITS expectations); an origin is required
+		// as soon as one alternative requires it
+		merged := map[hcl.Range]expOrigin{}
+		var order []hcl.Range
 		for _, alt := range cons {
 			sub := &origModel{funcs: m.funcs}
 			sub.admit(e, alt, depth)
-			exp = append(exp, sub.expected...)
+			sub.finalize()
+			for _, x := range sub.expected {
+				if old, ok := merged[x.rng]; !ok {
+					merged[x.rng] = x
+					order = append(order, x.rng)
+				} else if old.optional && !x.optional {
+					merged[x.rng] = x
+				}
+			}
 			m.dontcare = append(m.dontcare, sub.dontcare...)
-			if first {
-				forbidAll = sub.forbid
-				first = false
-			}
 		}
-		// de-duplicate expected by range
-		seen := map[hcl.Range]bool{}
-		for _, x := range exp {
-			if !seen[x.rng] {
-				seen[x.rng] = true
-				m.expected = append(m.expected, x)
-			}
+		for _, r := range order {
+			x := merged[r]
+			x.where = strings.Replace(x.where, "|", "|OneOf>", 1)
+			m.expected = append(m.expected, x)
 		}
-		// whatever some alternative admits is not forbidden; keep it simple: the
-		// whole expression is a don't-care zone for soundness of OneOf
-		_ = forbidAll
+		// soundness inside a OneOf value is not decided (alternatives may overlap)
 		m.dontcare = append(m.dontcare, e.Range())
+		m.finalized = true
 	case schema.LiteralType, schema.LiteralValue, schema.Keyword, schema.TypeDeclaration:
 		m.forbid = append(m.forbid, e.Range())
 	default:
@@ -300,18 +343,19 @@ func (m *origModel) body(body *hclsyntax.Body, e *model.Eff) {
 			continue
 		}
 		_ = how
-		before := len(m.expected)
-		m.admit(attr.Expr, as.Constraint, 0)
+		sub := &origModel{funcs: m.funcs}
+		sub.admit(attr.Expr, as.Constraint, 0)
+		sub.finalize()
+		m.dontcare = append(m.dontcare, sub.dontcare...)
+		m.forbid = append(m.forbid, sub.forbid...)
 		// self.* only where the body enables them
-		kept := m.expected[:before]
-		for _, x := range m.expected[before:] {
+		for _, x := range sub.expected {
 			if x.self && !e.Ext.SelfRefs {
 				m.forbid = append(m.forbid, x.rng)
 				continue
 			}
-			kept = append(kept, x)
+			m.expected = append(m.expected, x)
 		}
-		m.expected = kept
 	}
 	for _, b := range body.Blocks {
 		var bs *schema.BlockSchema
@@ -420,7 +464,7 @@ func (p c10) check(unit int, rc Recipe, rep *runner.Reporter) {
 		}
 		// completeness
 		for _, x := range m.expected {
-			if inAny(m.dontcare, x.rng) && !strings.Contains(x.where, "|OneOf") {
+			if x.optional {
 				// expected origins inside a don't-care zone are not required ...
 				if _, ok := observed[x.rng]; !ok {
 					continue
